@@ -25,14 +25,15 @@ def _make_env(it):
     model = PyObjV("Model", source.load("model"), {"dt": dt, "progset": Opaque("progset")})
     self = PyObjV("Result", rm, {"model": model})
     return {"self": self, "prog": "p", "year": 2020.0, "prop_coverage": {"p": LArr(1, lambda i: pc)}, "num_eligible": {"p": LArr(1, lambda i: NE)}, "equivalent_alloc": {},
-            "UCARR": LArr(1, lambda i: UC), "ONE_OFF": one_off, "S": S, "NO": False, "COVERAGE_UNITS_PER_YEAR": True}
+            "UCARR": LArr(1, lambda i: UC), "ONE_OFF": one_off, "S": S, "NO": False, "COVERAGE_UNITS_PER_YEAR": z3.Bool("COVERAGE_UNITS_PER_YEAR")}
 
 
 CONTRACTS["results:Result.get_equivalent_alloc#unconstrained_program"] = dict(
     schema=schema, fragment={"iter": "prop_coverage.keys()"}, make_env=_make_env,
     stubs={_P + ".unit_cost.interpolate(year)": "UCARR", _P + ".saturation.has_data": "NO", _P + ".capacity_constraint.has_data": "NO",
            _P + ".is_one_off": "ONE_OFF",
-           # Program.coverage is created with units 'people/year' for every program (Program.__init__), whatever the unit cost
+           # the units of Program.coverage are independent data: 'people/year' by default (Program.__init__) and whatever the program
+           # book states otherwise (reading a book only warns when they disagree with the unit cost) -- an arbitrary Boolean here
            "'/year' in " + _P + ".coverage.units": "COVERAGE_UNITS_PER_YEAR"},
     call_stubs={"sc.dcp": (lambda it, x: x)},
     ensures=[("C13.reported_equivalent_spending_is_the_spending_that_produced_the_coverage", "equivalent_alloc['p'][0] == S")],
